@@ -4,6 +4,7 @@ pub mod automata;
 pub mod engine;
 pub mod executor;
 pub mod props;
+pub mod refmodel;
 pub mod sched;
 pub mod spec;
 pub mod tracecheck;
